@@ -229,6 +229,19 @@ func (_this *Context) NotifyKey(key interface{}) {
 		if v >= 0 {
 			key = uint64(v)
 		}
+	case negint:
+		// Normalize so that the same value always gives the same key,
+		// regardless of which event type carried it.
+		if v == 0 {
+			key = uint64(0)
+		} else if uint64(v) <= 1<<63 {
+			key = int64(-v)
+		} else {
+			var arr [2]big.Word
+			arr[0] = big.Word(big.NewInt(-1).Sign())
+			arr[1] = big.Word(v)
+			key = arr
+		}
 	case uint:
 		key = uint64(v)
 	case uint8:
